@@ -158,11 +158,11 @@ M("C11", "section_ignores_indent", "api/io/output.py", "        section.indent(s
 M("C19", "two_writes_per_frame", "ui/components/progress_indicator.py",
   '            self._io.write("\\x0D\\x1B[2K" + message)', '            self._io.write("\\x0D\\x1B[2K")\n            self._io.write(message)')
 M("C19", "no_join_on_exception", "ui/components/progress_indicator.py",
-  "            self._auto_running.set()\n            self._auto_thread.join()\n\n            raise", "            self._auto_running.set()\n\n            raise")
+  "            self._auto_running.set()\n            self._auto_thread.join()\n\n            self._io.write_line(\"\")\n\n            raise", "            self._auto_running.set()\n\n            self._io.write_line(\"\")\n\n            raise")
 M("C19", "no_stop_on_exception", "ui/components/progress_indicator.py",
-  "            self._auto_running.set()\n            self._auto_thread.join()\n\n            raise", "            self._auto_thread.join()\n\n            raise")
+  "            self._auto_running.set()\n            self._auto_thread.join()\n\n            self._io.write_line(\"\")\n\n            raise", "            self._auto_thread.join()\n\n            self._io.write_line(\"\")\n\n            raise")
 M("C19", "only_exception_caught", "ui/components/progress_indicator.py",
-  "        except (Exception, KeyboardInterrupt):", "        except Exception:")
+  "        except BaseException:\n            # Whatever ends the body", "        except Exception:\n            # Whatever ends the body")
 M("C19", "end_frame_before_join", "ui/components/progress_indicator.py",
   "        if self._auto_thread is not None:\n            self._auto_running.set()\n            self._auto_thread.join()\n\n        self._message = message\n\n        if reset_indicator:\n            self._current = 0\n\n        self._display()\n",
   "        self._message = message\n\n        if reset_indicator:\n            self._current = 0\n\n        self._display()\n\n        if self._auto_thread is not None:\n            self._auto_running.set()\n            self._auto_thread.join()\n")
@@ -173,7 +173,7 @@ M("C19", "throttle_halved", "ui/components/progress_indicator.py",
 M("C19", "plain_advance_redraws", "ui/components/progress_indicator.py",
   "        if not self._io.supports_ansi():\n            return\n\n        current_time", "        current_time")
 M("C19", "exception_swallowed", "ui/components/progress_indicator.py",
-  "            self._auto_thread.join()\n\n            raise\n", "            self._auto_thread.join()\n\n            return\n")
+  "            self._io.write_line(\"\")\n\n            raise\n", "            self._io.write_line(\"\")\n\n            return\n")
 
 # ---- C20 ------------------------------------------------------------------------------------
 M("C20", "empty_source_keyerror", "ui/components/exception_trace.py",
@@ -197,7 +197,7 @@ M("C20", "ignore_never_applies", "ui/components/exception_trace.py",
 M("C20", "message_first_line_only", "ui/components/exception_trace.py",
   '        exception_message = exception_message.replace("\\n", "\\n  ")\n', '        exception_message = exception_message.split("\\n")[0]\n')
 M("C20", "simple_prints_class_only", "ui/components/exception_trace.py",
-  '                    _safe_markup(str(self._exception), "<error>{}</error>")', '                    self._exception.__class__.__name__')
+  '                    "error", _safe_markup(str(self._exception), "<error>{}</error>")', '                    "error", self._exception.__class__.__name__')
 M("C20", "ascii_symbols_always", "ui/components/exception_trace.py",
   "        self._ui = self.UI[supports_utf8]", "        self._ui = self.UI[False]")
 M("C20", "leading_space_dropped", "ui/components/exception_trace.py",
@@ -217,8 +217,16 @@ M("C04", "handled_event_ignored", "api/command/command.py",
 M("C04", "exit_code_from_code_attr", "console_application.py",
   '        if not hasattr(e, "code") or not isinstance(e, int):\n            return 1', '        if not hasattr(e, "code"):\n            return 1')
 M("C04", "simple_render_unchecked_markup", "ui/components/exception_trace.py",
-  '            _write_line(\n                io,\n                "<error>{}</error>".format(\n                    _safe_markup(str(self._exception), "<error>{}</error>")\n                ),\n            )',
+  '            _write_line(\n                io,\n                _tagged(\n                    "error", _safe_markup(str(self._exception), "<error>{}</error>")\n                ),\n            )',
   '            io.write_line(\n                "<error>{}</error>".format(\n                    str(self._exception)\n                ),\n            )')
+M("C20", "message_backslash_inside_tag", "ui/components/exception_trace.py",
+  '    body = text.rstrip("\\\\")\n\n    return "<{0}>{1}</{0}>{2}".format(tag, body, text[len(body) :])',
+  '    return "<{0}>{1}</{0}>".format(tag, text)')
+M("C20", "chunk_backslash_before_next_tag", "ui/components/exception_trace.py",
+  '        if len(kept) == len(line) or not chunk.startswith("<"):\n            return line + chunk\n',
+  '        if True:\n            return line + chunk\n')
+M("C19", "only_exception_and_interrupt_stop_the_spinner", "ui/components/progress_indicator.py",
+  "        except BaseException:\n", "        except (Exception, KeyboardInterrupt):\n")
 M("C04", "render_line_unchecked_markup", "ui/components/exception_trace.py",
   '        _write_line(io, "{}{}".format(indent * " ", _safe_markup(line)))', '        io.write_line("{}{}".format(indent * " ", line))')
 M("C04", "handler_called_twice", "api/command/command.py",
@@ -271,7 +279,7 @@ M("C20", "snippet_cache_ignores_utf8", "ui/components/exception_trace.py",
   "                        cache_key = (frame, 2, 2, io.supports_utf8())\n",
   "                        cache_key = (frame, 2, 2)\n")
 M("C20", "report_line_fallback_removed", "ui/components/exception_trace.py",
-  "    try:\n        io.write_line(line)\n    except ValueError:\n        io.write_line(_strip_tags(line))\n", "    io.write_line(line)\n")
+  "    try:\n        _write_whole_line(io, line)\n    except ValueError:\n        _write_whole_line(io, _strip_tags(line))\n", "    _write_whole_line(io, line)\n")
 M("C17", "default_lists_handed_out", "api/args/format/argument.py",
   "        if isinstance(self._default, list):\n            # A copy: the list ends up in the hands of user code as the value it parsed\n            return list(self._default)\n\n", "")
 M("C17", "render_consumes_header", "ui/components/table.py",
